@@ -450,10 +450,10 @@ func registerIntrinsics(e *Engine) {
 		return crcModel(fr, sliceBytes(args[0]))
 	}
 	in["github.com/cespare/xxhash/v2.Sum64"] = func(fr *frame, args []value) value {
-		return ufBytes(fr, "xxh64", 64, sliceBytes(args[0]))
+		return xxhModel(fr, sliceBytes(args[0]))
 	}
 	in["github.com/cespare/xxhash/v2.Sum64String"] = func(fr *frame, args []value) value {
-		return ufBytes(fr, "xxh64", 64, strBytes(args[0]))
+		return xxhModel(fr, strBytes(args[0]))
 	}
 	// Snappy model: Encode(x) = x (identity form); Decode accepts exactly encoder output.
 	in["github.com/golang/snappy.Encode"] = func(fr *frame, args []value) value {
